@@ -5,7 +5,7 @@ import json, os, subprocess, sys
 W = '/tmp/wt/matrix%d' % os.getpid()
 subprocess.run(['git', '-C', '/repo', 'worktree', 'remove', '--force', W], stderr=subprocess.DEVNULL)
 subprocess.run(['git', '-C', '/repo', 'worktree', 'add', '-q', '--detach', W, 'HEAD'], check=True)
-ids = sys.argv[1:] or sorted(d for d in os.listdir('/verif/seeded') if os.path.isdir(os.path.join('/verif/seeded', d)))
+ids = sys.argv[1:] or sorted(d for d in os.listdir('/verif/seeded') if os.path.isfile(os.path.join('/verif/seeded', d, 'meta.json')))
 out = {}
 try:
     for sid in ids:
